@@ -119,9 +119,15 @@ class AbstractDeme(ABC):
 
     @property
     def iterations_count_since_last_sprout(self) -> int:
-        return self.current_iteration - max(
-            [child.started_at for child in self.children],
-            default=self.current_iteration,
+        # A deme that has hibernated lags behind the tree's metaepoch counter (which started_at of its
+        # children follows), so the difference is clamped at zero.
+        return max(
+            0,
+            self.current_iteration
+            - max(
+                [child.started_at for child in self.children],
+                default=self.current_iteration,
+            ),
         )
 
     def add_child(self, deme: "AbstractDeme") -> None:
